@@ -4,16 +4,21 @@ use crate::simcpu::{cpu, run_stepped, Ev};
 use crate::Args;
 use x86_64::instructions::interrupts;
 
+/// a program: a list of nodes; `flip == false`: without_interrupts(|| children); `flip == true`: a scope that toggles the
+/// interrupt flag with the crate's enable()/disable(), runs its children and toggles it back (it leaves the flag as it found it)
 #[derive(Clone, Debug)]
-pub struct Tree(pub Vec<Tree>);
+pub struct Tree(pub Vec<Tree>, pub bool);
+fn wi(v: Vec<Tree>) -> Tree {
+    Tree(v, false)
+}
 
 fn gen(depth: u32, width: usize) -> Vec<Tree> {
     // all trees of nesting depth <= depth with <= width children per node
     if depth == 0 {
-        return vec![Tree(vec![])];
+        return vec![wi(vec![])];
     }
     let sub = gen(depth - 1, width);
-    let mut out = vec![Tree(vec![])];
+    let mut out = vec![wi(vec![])];
     let mut level: Vec<Vec<Tree>> = vec![vec![]];
     for _ in 0..width {
         let mut next = Vec::new();
@@ -25,7 +30,7 @@ fn gen(depth: u32, width: usize) -> Vec<Tree> {
             }
         }
         for v in &next {
-            out.push(Tree(v.clone()));
+            out.push(wi(v.clone()));
         }
         level = next;
     }
@@ -45,6 +50,14 @@ fn interp(t: &Tree, seed: u64) -> u64 {
     let mut acc = seed;
     for (i, c) in t.0.iter().enumerate() {
         let before = cpu().interrupts_enabled();
+        if c.1 {
+            // flag-flipping scope
+            if before { interrupts::disable() } else { interrupts::enable() }
+            let v = interp(c, acc.wrapping_mul(31).wrapping_add(i as u64 + 1));
+            if before { interrupts::enable() } else { interrupts::disable() }
+            acc = acc.rotate_left(7) ^ v;
+            continue;
+        }
         let v = interrupts::without_interrupts(|| {
             unsafe {
                 OBS.bodies += 1;
@@ -67,28 +80,29 @@ fn reference(t: &Tree, seed: u64) -> (u64, u32) {
     let mut n = 0;
     for (i, c) in t.0.iter().enumerate() {
         let (v, m) = reference(c, acc.wrapping_mul(31).wrapping_add(i as u64 + 1));
-        n += 1 + m;
+        n += (!c.1) as u32 + m;
         acc = acc.rotate_left(7) ^ v;
     }
     (acc, n)
 }
 
 fn show(t: &Tree) -> String {
-    let mut s = String::from("(");
+    let mut s = String::from(if t.1 { "[" } else { "(" });
     for c in &t.0 {
         s += &show(c);
     }
-    s.push(')');
+    s.push(if t.1 { ']' } else { ')' });
     s
 }
 fn parse(s: &[u8], pos: &mut usize) -> Tree {
     let mut v = vec![];
-    *pos += 1; // '('
-    while s[*pos] == b'(' {
+    let flip = s[*pos] == b'[';
+    *pos += 1; // '(' or '['
+    while s[*pos] == b'(' || s[*pos] == b'[' {
         v.push(parse(s, pos));
     }
-    *pos += 1; // ')'
-    Tree(v)
+    *pos += 1; // ')' or ']'
+    Tree(v, flip)
 }
 
 #[allow(static_mut_refs)]
@@ -120,6 +134,7 @@ pub fn program_case(r: &mut Rep, t: &Tree, if0: bool, seed: u64) {
     if res != Ok(exp) {
         r.viol("C17|without_interrupts|result-not-passed-through", &case, &format!("{:x?} expected {:#x}", res, exp));
     }
+    // (flag-flipping scopes execute cli/sti themselves; the event filter below still holds)
     // nothing but flag reads, cli and sti may be executed
     if evs.iter().any(|e| !matches!(e, Ev::Pushf(_) | Ev::Cli | Ev::Sti)) {
         r.viol("C17|without_interrupts|executes-other-sensitive-instruction", &case, &format!("{:x?}", evs));
@@ -194,10 +209,40 @@ pub fn run(a: &Args) {
         progs.extend(gen(2, 4));
         progs.extend(gen(4, 1));
     }
-    let mut chain = Tree(vec![]);
+    let mut chain = wi(vec![]);
     for _ in 0..8 {
-        chain = Tree(vec![chain]);
+        chain = wi(vec![chain]);
         progs.push(chain.clone());
+    }
+    // programs with flag-flipping scopes: all trees of depth <= 2 with <= 2 siblings over {WI, Flip}, and every chain of length <= 5
+    fn gen2(depth: u32) -> Vec<Tree> {
+        if depth == 0 {
+            return vec![Tree(vec![], false)];
+        }
+        let sub = gen2(depth - 1);
+        let mut kids: Vec<Tree> = vec![];
+        for s in &sub {
+            kids.push(Tree(s.0.clone(), false));
+            kids.push(Tree(s.0.clone(), true));
+        }
+        let mut out = vec![Tree(vec![], false)];
+        for a in &kids {
+            out.push(Tree(vec![a.clone()], false));
+            for b in &kids {
+                out.push(Tree(vec![a.clone(), b.clone()], false));
+            }
+        }
+        out
+    }
+    progs.extend(gen2(2));
+    for len in 1..=5u32 {
+        for mask in 0..(1u32 << len) {
+            let mut t = Tree(vec![], false);
+            for k in 0..len {
+                t = Tree(vec![Tree(t.0.clone(), mask >> k & 1 == 1)], false);
+            }
+            progs.push(t);
+        }
     }
     let mut seen = std::collections::BTreeSet::new();
     progs.retain(|t| seen.insert(show(t)));
